@@ -160,17 +160,17 @@ func TestC08_SyncEnumerated(t *testing.T) {
 	rt.Note("enumerated_scope", fmt.Sprintf("every synchronous catalogue row x params x scripts of length <= %d x endings, checked after every individual Next/Error/Complete call", maxLen))
 }
 
-func TestC08_SyncChainsRandom(t *testing.T) {
-	rapid.Check(t, func(t *rapid.T) {
-		n := rapid.IntRange(2, 5).Draw(t, "chainLen")
-		links := make([]cat.Link, n)
-		for i := range links {
-			links[i] = genLink(t, false)
-		}
-		c := c08Sync{Links: links, Script: genScript(t, 10, 1, 4, []byte{'C', 'E', 0})}
-		c08RunSync(t, c)
-		rt.Case(caseKey("syncchain", fmt.Sprint(links), c.Script), scriptValues(c.Script) >= 2, fmt.Sprintf("chain-len:%d", n), func() any { return c })
-	})
+func TestC08_SyncChainsRandom(t *testing.T) { rapid.Check(t, propC08SyncChainsRandom) }
+
+func propC08SyncChainsRandom(t *rapid.T) {
+	n := rapid.IntRange(2, 5).Draw(t, "chainLen")
+	links := make([]cat.Link, n)
+	for i := range links {
+		links[i] = genLink(t, false)
+	}
+	c := c08Sync{Links: links, Script: genScript(t, 10, 1, 4, []byte{'C', 'E', 0})}
+	c08RunSync(t, c)
+	rt.Case(caseKey("syncchain", fmt.Sprint(links), c.Script), scriptValues(c.Script) >= 2, fmt.Sprintf("chain-len:%d", n), func() any { return c })
 }
 
 // ---- hand-off operators -----------------------------------------------------------------
